@@ -50,6 +50,21 @@ def scan_file(path, rel):
             return 'hash'
         return None
 
+    def is_set_expr(n):
+        return isinstance(n, (ast.Set, ast.SetComp)) or (isinstance(n, ast.Call) and unparse(n.func) in ('set', 'frozenset'))
+
+    ORDER_CONSUMERS = {'list', 'tuple', 'np.array', 'np.asarray', 'enumerate', 'iter', 'next', 'ss.uids', 'np.fromiter', 'zip', 'dict.fromkeys'}
+
+    def set_order_use(n):
+        """ the iteration order of a set reaches a value: list(set(..)), for x in set(..), [.. for x in set(..)] """
+        if isinstance(n, ast.Call) and unparse(n.func) in ORDER_CONSUMERS and n.args and is_set_expr(n.args[0]):
+            return True
+        if isinstance(n, (ast.For, ast.AsyncFor)) and is_set_expr(n.iter):
+            return True
+        if isinstance(n, ast.comprehension) and is_set_expr(n.iter):
+            return True
+        return False
+
     def walk(node, cls, fn):
         for ch in ast.iter_child_nodes(node):
             if isinstance(ch, ast.ClassDef):
@@ -61,8 +76,41 @@ def scan_file(path, rel):
                     k = classify(ch)
                     if k:
                         rows.append((rel, cls or '', fn or '', k))
+                if set_order_use(ch):
+                    rows.append((rel, cls or '', fn or '', 'set-order'))   # hash-seed dependent for strings
                 walk(ch, cls, fn)
     walk(tree, None, None)
+    return rows
+
+
+def scan_shared_mutables(path, rel):
+    """ objects created once at class-definition / function-definition time and then shared by every instance, every
+        call and every simulation of the process: class-body assignments of mutable displays or constructor calls, and
+        mutable default arguments.  (Immutable defaults — numbers, strings, None, tuples, attribute constants — are not listed.) """
+    tree = ast.parse(open(path).read())
+    MUT = (ast.List, ast.Dict, ast.Set, ast.ListComp, ast.DictComp, ast.SetComp, ast.Call)
+    rows = []
+    def visit(node, cls):
+        for ch in ast.iter_child_nodes(node):
+            if isinstance(ch, ast.ClassDef):
+                for st in ch.body:
+                    if isinstance(st, (ast.Assign, ast.AnnAssign)) and st.value is not None and isinstance(st.value, MUT):
+                        if isinstance(st.value, ast.Call) and unparse(st.value.func) in ('property', 'staticmethod', 'classmethod'):
+                            continue
+                        tgt = unparse(st.targets[0]) if isinstance(st, ast.Assign) else unparse(st.target)
+                        rows.append((rel, ch.name, 'class-attribute', f'{tgt} = {unparse(st.value)[:60]}'))
+                visit(ch, ch.name)
+            elif isinstance(ch, (ast.FunctionDef, ast.AsyncFunctionDef, ast.Lambda)):
+                a = ch.args
+                names = [x.arg for x in a.args][len(a.args) - len(a.defaults):] + [x.arg for x, d in zip(a.kwonlyargs, a.kw_defaults) if d is not None]
+                defs = list(a.defaults) + [d for d in a.kw_defaults if d is not None]
+                for nm, d in zip(names, defs):
+                    if isinstance(d, MUT):
+                        rows.append((rel, (cls + '.' if cls else '') + getattr(ch, 'name', '<lambda>'), 'mutable-default', f'{nm}={unparse(d)[:60]}'))
+                visit(ch, cls)
+            else:
+                visit(ch, cls)
+    visit(tree, None)
     return rows
 
 
@@ -90,6 +138,10 @@ def gen_global_reads(src):
         raise ExtractError(f'source files not covered by the global-state scan: {extra}')
     for rel in SCAN_FILES:
         rows += scan_file(os.path.join(src.repo, rel), rel)
+    shared = []
+    for rel in SCAN_FILES:
+        shared += scan_shared_mutables(os.path.join(src.repo, rel), rel)
+    shared = sorted(set(shared))
     reads = sorted(set(r for r in rows if not r[3].startswith('write:')))
     writes = sorted(set(r for r in rows if r[3].startswith('write:')))
     def tab(rs):
@@ -101,9 +153,13 @@ def globalReads : List (String × String × String × String) := [
 /-- deliberate (re)seeding of the global generators -/
 def globalWrites : List (String × String × String × String) := [
   {tab(writes)}]
+/-- (file, class or function, kind, text): mutable objects created once per process and shared by all instances / calls /
+    simulations (class-body mutable attributes, mutable default arguments) -/
+def sharedMutables : List (String × String × String × String) := [
+  {tab(shared)}]
 end StarsimModel.Gen
 '''
-    return body, dict(reads=[list(r) for r in reads], writes=[list(r) for r in writes])
+    return body, dict(reads=[list(r) for r in reads], writes=[list(r) for r in writes], shared=[list(r) for r in shared])
 
 
 def find_assign(fn, target):
